@@ -1,10 +1,11 @@
 #!/bin/bash
-# usage: thorough_all.sh [seed]  -- every claimed check in the thorough tier; prints one line per check and the alarms.
+# usage: [PROPS='C05 C06'] thorough_all.sh [seed]  -- every claimed check in the thorough tier; prints one line per check and the alarms.
 # With VERIF_REPO set (e.g. vp run --with-repo: VERIF_REPO=$VP_RUN_REPO) it runs against that copy of the repository.
 cd "$(dirname "$0")/.."
 ./build.sh >/dev/null 2>&1 || { echo "build failed"; exit 2; }
 sd=${1:-0}
-for p in $(python3 -c "import json; print(' '.join(c['property_id'] for c in json.load(open('MANIFEST.json'))['checks']))"); do
+props=${PROPS:-$(python3 -c "import json; print(' '.join(c['property_id'] for c in json.load(open('MANIFEST.json'))['checks']))")}
+for p in $props; do
   out=$(VERIF_SEED=$sd ./check $p --tier thorough 2>&1); rc=$?
   echo "$p seed=$sd rc=$rc $(echo "$out" | tail -1 | cut -c1-220)"
   if [ $rc -ne 0 ]; then echo "$out" | grep -E "^(VIOLATION|NOTE)" | cut -c1-600; fi
